@@ -86,17 +86,13 @@ def run(rep, facts):
             rep.ok("R13.2", "semaphore-size", "Semaphore::new(config.max_conns.get())", loc)
         else:
             rep.violation("R13.2", "semaphore-size", "semaphore is sized by %s, expected config.max_conns.get()" % ir.show(a)[:100], loc)
-    rsites = F.aggregates_of(facts, RUNNER)
+    rsites = common.construction_sites(facts, RUNNER)
     rep.floor("R13.2", "Runner construction sites", len(rsites), 2)
-    for (b, bi, si, st) in rsites:
-        r = ir.Resolver(b)
-        rv = st["rv"]
-        fields = dict(zip(rv["fields"], rv["ops"]))
-        loc = "%s:%d" % (st["sp"]["f"], st["sp"]["l"])
+    for (b, bi, fields, loc) in rsites:
         if "sema" not in fields:
             rep.undecidable("R13.2", "runner-sema-field", "Runner has no field `sema`", loc)
             continue
-        e = ir.peel(r.operand(fields["sema"], (bi, si)))
+        e = ir.peel(fields["sema"])
         kind = None
         if e[0] == 'call' and e[1].endswith("Clone>::clone") and e[2]:
             a0 = ir.peel(e[2][0])
